@@ -4,9 +4,11 @@ CONSTANTS
   MaxFragments = 2
   FnScopes = {"def"}
   MaxDepth = 1
+  FixedLines = TRUE
+  FixedFwd = TRUE
   PosMaxLines = 4
   NodesHavePos = TRUE
-  DevOn = {"fwd", "byte", "split"}
+  DevOn = {"byte"}
   YSites = {"oneline"}
   YPads = {"none"}
   YBefore = {0}
